@@ -148,3 +148,110 @@ Proof.
               (proj1 ex_rec_equiv) ltac:(discriminate) E HT HT') as [d [G G']].
   rewrite G, G'. split; [reflexivity|discriminate].
 Qed.
+
+(* ---- the repository built from the recorded price events ---- *)
+Lemma rec_equiv_trans r1 r2 r3 : rec_equiv r1 r2 -> rec_equiv r2 r3 -> rec_equiv r1 r3.
+Proof.
+  intros [A [_ C]] [_ [B D]]. split; [exact A|split; [exact B|]]. intros a. specialize (C a). specialize (D a).
+  destruct (get a r1), (get a r2), (get a r3); try contradiction; [eapply map_equiv_trans; eauto|exact I].
+Qed.
+
+Lemma rec_equiv_nil : rec_equiv [] [].
+Proof. split; [constructor|split; [constructor|]]. intros w. exact I. Qed.
+
+Lemma rec_set_equiv (r r' : records) w (x x' : inner) :
+  rec_equiv r r' -> map_equiv x x' -> rec_equiv (set w x r) (set w x' r').
+Proof.
+  intros [A [B C]] Hx. split; [apply BookA_Maps.NoDup_keys_set, A|split; [apply BookA_Maps.NoDup_keys_set, B|]].
+  intros k. rewrite !BookA_Maps.get_set. destruct (w =? k)%N; [exact Hx|apply C].
+Qed.
+
+(* the inner map insert_impl writes back under wc *)
+Definition new_cell (recs : records) (src : source) (date : Z) (oc : cid) (ov : Qc) (wc : cid) (wv : Qc) : inner :=
+  let inn := match get wc recs with Some i => i | None => [] end in
+  let en := match get oc inn with Some e => e | None => {| pe_source := SLedger; pe_rates := [] |} end in
+  let en' := if source_ltb (pe_source en) src then {| pe_source := src; pe_rates := [] |} else en in
+  set oc {| pe_source := pe_source en'; pe_rates := pe_rates en' ++ [(date, wv / ov)] |} inn.
+
+Lemma insert_impl_cell recs src date oc ov wc wv :
+  insert_impl recs src date oc ov wc wv = set wc (new_cell recs src date oc ov wc wv) recs.
+Proof. reflexivity. Qed.
+
+Lemma new_cell_local (r r2 : records) src date oc ov wc wv :
+  get wc r = get wc r2 -> new_cell r src date oc ov wc wv = new_cell r2 src date oc ov wc wv.
+Proof. intros H. unfold new_cell. cbv zeta. rewrite H. reflexivity. Qed.
+
+Lemma mm_get_default {V} (r r' : amap (amap V)) w :
+  match get w r, get w r' with Some x, Some y => map_equiv x y | None, None => True | _, _ => False end ->
+  map_equiv (match get w r with Some i => i | None => [] end) (match get w r' with Some i => i | None => [] end).
+Proof. destruct (get w r), (get w r'); try contradiction; [auto|intros _; apply map_equiv_refl; constructor]. Qed.
+
+Lemma new_cell_equiv (r r' : records) src date oc ov wc wv : rec_equiv r r' ->
+  map_equiv (new_cell r src date oc ov wc wv) (new_cell r' src date oc ov wc wv).
+Proof.
+  intros [_ [_ C]]. specialize (C wc). pose proof (mm_get_default r r' wc C) as HI.
+  unfold new_cell. cbv zeta. unfold inner in *.
+  rewrite (map_equiv_get _ _ oc HI). apply map_equiv_set, HI.
+Qed.
+
+Lemma insert_impl_equiv (r r' : records) src date oc ov wc wv : rec_equiv r r' ->
+  rec_equiv (insert_impl r src date oc ov wc wv) (insert_impl r' src date oc ov wc wv).
+Proof. intros H. rewrite !insert_impl_cell. apply rec_set_equiv; [exact H|apply new_cell_equiv, H]. Qed.
+
+(* insertions under two different outer keys commute *)
+Lemma insert_impl_comm (r r' : records) s1 d1 oc1 ov1 wc1 wv1 s2 d2 oc2 ov2 wc2 wv2 :
+  wc1 <> wc2 -> rec_equiv r r' ->
+  rec_equiv (insert_impl (insert_impl r s1 d1 oc1 ov1 wc1 wv1) s2 d2 oc2 ov2 wc2 wv2)
+            (insert_impl (insert_impl r' s2 d2 oc2 ov2 wc2 wv2) s1 d1 oc1 ov1 wc1 wv1).
+Proof.
+  intros Hne H. pose proof H as [A [B C]]. rewrite !insert_impl_cell.
+  rewrite (new_cell_local (set wc1 _ r) r s2 d2 oc2 ov2 wc2 wv2)
+    by (apply BookA_Maps.get_set_other; congruence).
+  rewrite (new_cell_local (set wc2 _ r') r' s1 d1 oc1 ov1 wc1 wv1)
+    by (apply BookA_Maps.get_set_other; congruence).
+  split; [apply BookA_Maps.NoDup_keys_set, BookA_Maps.NoDup_keys_set, A|].
+  split; [apply BookA_Maps.NoDup_keys_set, BookA_Maps.NoDup_keys_set, B|].
+  intros k. rewrite !BookA_Maps.get_set.
+  destruct (N.eqb_spec wc2 k) as [->|E2].
+  - destruct (N.eqb_spec wc1 k) as [E|_]; [contradiction|]. apply new_cell_equiv, H.
+  - destruct (N.eqb_spec wc1 k) as [->|E1]; [apply new_cell_equiv, H|apply C].
+Qed.
+
+Lemma insert_price_equiv (r r' : records) e e' : rec_equiv r r' -> ev_equiv e e' ->
+  rec_equiv (insert_price r e) (insert_price r' e').
+Proof.
+  intros H [->|[-> Hne]]; unfold insert_price.
+  - destruct (qc_zero (e_xv e) || qc_zero (e_yv e)); [exact H|]. apply insert_impl_equiv, insert_impl_equiv, H.
+  - destruct e as [src d xc xv yc yv]. cbn [ev_swap e_source e_date e_xc e_xv e_yc e_yv] in *.
+    rewrite (orb_comm (qc_zero yv)). destruct (qc_zero xv || qc_zero yv); [exact H|].
+    apply insert_impl_comm; [congruence|exact H].
+Qed.
+
+Lemma fold_insert_price_equiv evs evs' : Forall2 ev_equiv evs evs' -> forall r r', rec_equiv r r' ->
+  rec_equiv (fold_left insert_price evs r) (fold_left insert_price evs' r').
+Proof. induction 1 as [|e e' l l' He _ IH]; intros r r' Hr; cbn [fold_left]; [exact Hr|]. apply IH, insert_price_equiv; assumption. Qed.
+
+Lemma load_price_db_equiv db : forall r r', rec_equiv r r' -> rec_equiv (load_price_db r db) (load_price_db r' db).
+Proof.
+  unfold load_price_db. induction db as [|l db IH]; intros r r' H; cbn [fold_left]; [exact H|].
+  apply IH, insert_price_equiv; [exact H|left; reflexivity].
+Qed.
+
+Lemma build_equiv (r r' : records) : rec_equiv r r' -> rec_equiv (build r) (build r').
+Proof.
+  intros [A [B C]]. unfold build.
+  set (fi := fun wi : cid * inner =>
+               map (fun oe => (fst oe, {| pe_source := pe_source (snd oe); pe_rates := dr_sort (pe_rates (snd oe)) |})) (snd wi)).
+  change (rec_equiv (map (fun wi => (fst wi, fi wi)) r) (map (fun wi => (fst wi, fi wi)) r')).
+  split; [rewrite BookA_Maps.keys_map_snd; exact A|split; [rewrite BookA_Maps.keys_map_snd; exact B|]].
+  intros k. rewrite !(BookA_Maps.get_map_snd fi (fun w i => fi (w, i))) by (intros [? ?]; reflexivity).
+  specialize (C k). destruct (get k r), (get k r'); cbn [option_map]; try contradiction; [|exact I].
+  unfold fi. cbn [snd].
+  apply (map_equiv_map_snd (fun oe => {| pe_source := pe_source (snd oe); pe_rates := dr_sort (pe_rates (snd oe)) |})), C.
+Qed.
+
+Theorem repository_equiv evs evs' db : Forall2 ev_equiv evs evs' ->
+  rec_equiv (repository evs db) (repository evs' db).
+Proof.
+  intros H. unfold repository. apply build_equiv, load_price_db_equiv, fold_insert_price_equiv; [exact H|apply rec_equiv_nil].
+Qed.
